@@ -12,7 +12,7 @@ from concurrent.futures import ThreadPoolExecutor
 
 ROOT = '/verif'
 sys.path.insert(0, ROOT + '/tools')
-import gen, pyref, tracecmp, oracles   # noqa: E402
+import gen, pyref, tracecmp, oracles, coqcases   # noqa: E402
 
 BUILD = ROOT + '/build'
 COQ = ROOT + '/coq'
@@ -88,15 +88,17 @@ PROPS = {
                 key=lambda ops: any(o.startswith('b_finish') for o in ops)),
 }
 
+KERNEL_CASES = {'quick': 12, 'thorough': 60}      # histories re-evaluated inside Coq per check
 SMALL_SCOPE_PROPS = {'C01', 'C02', 'C03', 'C04', 'C06', 'C07', 'C09'}
 # histories per scenario family (a property with more families gets proportionally more histories)
 PER_FAMILY = {'quick': 500, 'thorough': 8000}
 TRUSTED_BASE = [
-    'Coq 8.16.1 kernel (coqc; coqchk in the thorough tier); vm_compute in Examples and *_refuted witnesses; no native_compute',
+    'Coq 8.16.1 kernel (coqc; coqchk in the thorough tier); vm_compute in Examples, *_refuted witnesses and the kernel-evaluated cases; no native_compute',
     'axioms: none (every Print Assumptions reports "Closed under the global context"); hypotheses of theorems, not axioms: '
     'collision_free H / nonzero_hash H (SHA-256 idealised), ek_wf / ek_codec_on (element type laws), umap_lawful (update map laws, proved for the three implementations)',
     'hand-written Gallina model of milhouse (theories/model), tied to /repo only by the correspondence check of this run',
     'extraction: Coq extraction plugin with ExtrOcamlBasic only (bool, option, unit, list, prod, sumbool, sumor; andb/orb inlined), no Extract Constant/Inductive of our own; OCaml 4.13.1, zarith',
+    'kernel-evaluated cases (tools/coqcases.py): per run a sample of the executed histories is re-evaluated inside Coq by vm_compute (model/Cases.v, Gallina SHA-256 model/Sha256.v checked against FIPS vectors) and must reproduce the implementation\'s answers; this path uses neither extraction nor the OCaml driver',
     'model_driver/driver.ml and sha256.ml (hand-written), Rust harness (/verif/harness), Python orchestrator, generators, reference oracle tools/pyref.py + tools/ssz_ref.py (from-scratch SSZ over hashlib) and tools/oracles.py',
     'modelled rather than verified: SHA-256 / ZERO_HASHES / mix_in_length, element Encode/Decode/TreeHash impls, ethereum_ssz decode_list_of_variable_length_items and SszEncoder, serde/serde_json, vec_map::VecMap and BTreeMap, Arc identity, RwLock atomicity, rayon::join (Par); not modelled: memory safety, allocation failure, stack depth, timing, the OS scheduler',
 ]
@@ -517,6 +519,7 @@ def check(prop, tier, seed):
     fam_of = [f for f, _ in texts]
     hs = [t for _, t in texts]
     impl = model = None
+    kc = dict(cases=0, ok=None)
     findings = []             # (index, Finding list)
     corr = []                 # (index, rel diffs)
     drift_count = 0
@@ -524,6 +527,17 @@ def check(prop, tier, seed):
     if okh and okm:
         env = None
         impl, model, problems = run_all(hs, prop)
+        # kernel-evaluated correspondence (tools/coqcases.py): a sample of these histories, preferably ones that
+        # exercise the property's key operations, evaluated inside Coq and compared with the implementation's answers
+        kc = dict(cases=0, ok=None, detail='')
+        order = sorted(range(len(hs)), key=lambda i: (not spec['key']([l for l in hs[i].splitlines()[1:] if l]), i))
+        order = [i for i in order if impl[i] is not None][:400]
+        os.makedirs(WORK, exist_ok=True)
+        kc_n, kc_idx = coqcases.write_cases([hs[i] for i in order], [impl[i] for i in order], WORK + '/cases.v',
+                                            limit=KERNEL_CASES[tier], relevant=lambda o: spec['filt']('R', o))
+        kc_idx = [order[j] for j in kc_idx]
+        kc_pool = ThreadPoolExecutor(max_workers=1)
+        kc_future = kc_pool.submit(coqcases.run_cases, WORK + '/cases.v') if kc_n else None
         hung = sum(1 for t in impl if t and any(l.endswith(' timeout') for l in t['lines'] if l.startswith('R ')))
         if spec.get('repeat') and hung:
             log('%d histories did not terminate; skipping the repetitions' % hung)
@@ -576,6 +590,19 @@ def check(prop, tier, seed):
                             k = next((x for x in range(min(len(ro[0]), len(ro[j]))) if ro[0][x] != ro[j][x]), 0)
                             findings.append((i + j, [oracles.Finding(0, 'update-map choice is observable: `%s` vs `%s`' % (
                                 ro[0][k][:160] if k < len(ro[0]) else '<end>', ro[j][k][:160] if k < len(ro[j]) else '<end>'))]))
+        if kc_future is not None:
+            try:
+                kok, kbad, kout = kc_future.result()
+                kc = dict(cases=kc_n, ok=kok, detail='' if kok else kout[-1200:], bad=[kc_idx[k] for k in kbad if k < len(kc_idx)])
+                if not kok and not kbad:
+                    # coqc failed without locating a disagreeing case (time-out, resource limit): not evaluated
+                    kc['ok'] = None
+                    notes.append('kernel-evaluated cases could not be evaluated: ' + kout[-300:])
+            except Exception as e:
+                kc = dict(cases=kc_n, ok=None, detail='not evaluated: %r' % (e,))
+        if kc.get('ok') is False:
+            for i in kc['bad'][:3]:
+                corr.append((i, {'obs': (0, 'the implementation trace of this history', 'differs from the model evaluated inside Coq (vm_compute): ' + kc['detail'][-400:])}))
     # ---------------- verdict
     reported = set()
     for i, fl in findings[:50]:
@@ -679,6 +706,8 @@ def check(prop, tier, seed):
             families=dist,
             model_branch_coverage=cov,
             correspondence_views=spec['views'],
+            kernel_evaluated_cases=kc.get('cases', 0) if okh and okm else 0,
+            kernel_evaluated_agree=(kc.get('ok') if okh and okm else None),
             correspondence_differences=len(corr),
             drift_in_other_views=drift_count,
             oracle_findings=len(findings),
